@@ -34,7 +34,7 @@ def write_cfg(name, module_consts, invariants, props=()):
 
 
 def prayerday_mc(rep, name, invariants, roundings="{0, 2}", fajr_offsets="{0, 90000}", props=(), workers=10, neg="FALSE"):
-    cfg = write_cfg(name + ".cfg", {"LegacyUnwrap": "FALSE", "LegacyImsaak": "FALSE", "LegacyImsaakFlag": "FALSE", "LegacyLateInt": "FALSE", "Roundings": roundings, "FajrOffsets": fajr_offsets, "NegOffsets": neg},
+    cfg = write_cfg(name + ".cfg", {"LegacyUnwrap": "FALSE", "LegacyImsaak": "FALSE", "LegacyImsaakFlag": "FALSE", "LegacyLateInt": "FALSE", "LegacyIntFlag": "FALSE", "Roundings": roundings, "FajrOffsets": fajr_offsets, "NegOffsets": neg},
                     invariants, props)
     mc = tlc_must_pass("PrayerDay", cfg, workers=workers, coverage=True, timeout=2400, heap="8g")
     rep.add_tlc(mc)
